@@ -1677,3 +1677,5 @@ M("c09-suspension-raised-without-second-look", "C09", "R5.decided-policy-overrul
   "                if self._suspend_exception and not self.counters.should_complete():", "                if self._suspend_exception:")
 M("c19-error-built-under-the-mutex", "C19", "R1.no-user-code-under-the-mutex", "threading.py",
   "            broken_by = self._exception if self._is_broken else None\n", "            broken_by = self._exception if self._is_broken else None\n            if self._is_broken:\n                raise OrderedLockError(\"broken\", self._exception)\n")
+M("c07-replayed-wait-counts-from-now", "C07", "R1.replayed-wait-parks-until-its-recorded-end", "operation/wait.py",
+  "            suspend_with_optional_resume_timestamp(msg, max(scheduled_end, earliest))\n", "            pass\n", desc="the repair of h3_C07 #1 reverted")
